@@ -27,6 +27,8 @@ def impl_ok(case, out):
 ALIASES = [
     {"a": "b"}, {"a": "a"}, {"a": "b", "b": "a"}, {"a": "b ", "b": "c", "c": "a"}, {"a": "if", "b": "then"},
     {"a": "x; "}, {"a": "echo $(", "b": ")"}, {"a": "a a"}, {"if": "fi"}, {"a": ""}, {"a": " "}, {"a": "b\n"}, {"a": "'"}, {"a": "<<E"},
+    # cycles that pass through a command substitution / arithmetic expansion
+    {"a": "echo $(a)"}, {"a": "echo `b`", "b": "echo $(a)"}, {"a": "x $((a))"}, {"a": "b $(b)", "b": "c `a` "},
 ]
 
 
@@ -35,7 +37,7 @@ class P:
     exhaustive = True
     rule = ("exhaustive: every string of <= L symbols over the 22 significant single characters (quick L=4, thorough L=5) run as string source under "
             "GODEBUG=panicnil=0 (a bail-out is fatal there); every string of <= 3 symbols over these plus 13 reserved words; a 1/8 sample repeated "
-            "under panicnil=1 x {[]byte, io.Reader, strings.Reader, bufio.Reader, custom RuneScanner} x 14 alias tables (incl. cycles); generated "
+            "under panicnil=1 x {[]byte, io.Reader, strings.Reader, bufio.Reader, custom RuneScanner} x 18 alias tables (incl. cycles); generated "
             "programs and their single-token mutations. Non-trivial = at least 2 symbols; distinct inputs counted. A case fails when the worker "
             "dies, the call panics in the caller's goroutine, exceeds the 3 s watchdog, or returns neither commands nor an error for a non-blank first line")
     assumptions = ["termination is observed with a 3 s watchdog per call (a hang is reported, not proved absent)"]
